@@ -54,7 +54,7 @@ func (s *Session) Project(names []string) (snap Snapshot) {
 		}
 
 		if s.Win {
-			rd = "C:" + strings.ReplaceAll(rd, "/", "\\")
+			rd = WinVolume + strings.ReplaceAll(rd, "/", "\\")
 		}
 
 		des, err := s.base().ReadDir(rd)
@@ -88,7 +88,7 @@ func (s *Session) Project(names []string) (snap Snapshot) {
 
 			hp := dir + "/" + n
 			if s.Win {
-				hp = "C:" + strings.ReplaceAll(hp, "/", "\\")
+				hp = WinVolume + strings.ReplaceAll(hp, "/", "\\")
 			}
 
 			if _, err := s.base().Lstat(hp); err == nil {
@@ -103,7 +103,7 @@ func (s *Session) Project(names []string) (snap Snapshot) {
 			fullOS := full
 
 			if s.Win {
-				fullOS = "C:" + strings.ReplaceAll(full, "/", "\\")
+				fullOS = WinVolume + strings.ReplaceAll(full, "/", "\\")
 			}
 
 			e := Entry{P: cp, D: []int{}, T: Path{Parts: []string{}}, Same: [][]string{}}
@@ -245,7 +245,7 @@ func (s *Session) probeRoot(names []string) ([]fs.DirEntry, error) {
 
 		rp := "/" + n
 		if s.Win {
-			rp = "C:\\" + n
+			rp = WinVolume + "\\" + n
 		}
 
 		if fi, err := s.base().Lstat(rp); err == nil {
